@@ -21,7 +21,9 @@ ENV_MALFORMATIONS = [
 ]
 NENVWF = len(ENV_MALFORMATIONS)
 ROLE_SPELLINGS = {"root": ["root"], "key_mgr": ["key_mgr"],
-                  "pkg_mgr": ["pkg_mgr", "channeler", "root.json", "Root", "key_mgr ", "ключ"]}
+                  "pkg_mgr": ["pkg_mgr", "channeler", "root.json", "Root", "key_mgr ", "ключ",
+                              # names that are PARTS of the two metadata types, or contain them: a role is its whole name
+                              "key", "mgr", "_", "oot", "roo", "r", "key_mg", "ey_mgr", "key_mgr2", "xroot", "root_key_mgr"]}
 STDOUT_ENCODINGS = ["utf-8"] * 10 + ["ascii", "ascii", "ascii", "latin-1", "latin-1", "cp1252", "cp1252", "cp437", "cp437"] + lib.BROKEN_STDOUTS
 BAD_ROLE_ARGS = [5, None, b"root", ["root"], ("key_mgr",), 1.5]
 BAD_GPG_ARGS = ["yes", None, 2, [], "True", -1]
